@@ -157,23 +157,35 @@ theorem order_independent_prefix_refuted :
 
 /-- Protos are a function of the globals *at decoration*: whatever the module globals are later
 (`g'`), any number `n` of `to_model_proto`/`to_function_proto` calls return the decoration-time IR. -/
-theorem globals_frozen (g : Globals) (body : SExp) (n : Nat) :
+theorem globals_frozen_rebinding (g : Globals) (body : SExp) (n : Nat) :
     ∀ p, p ∈ (iterProto n (decorate g body)).1 → p = translate g body :=
   (iterProto_spec n (decorate g body)).2
 
-/-- `globals_frozen` for globals that are *mutable objects*: FALSE for the code as it is (finding C14-N1).
-`ir.tensor(W)` wraps the user's numpy array; `W[...] = 9` after decoration changes every later
-`to_model_proto()`/`to_function_proto()`.  `W = [1]; f = script(x + W); W[...] = 9` -/
-theorem globals_frozen_by_reference_refuted :
+/-- **Generated fact, re-read from `converter.py` on every run**: no method of `Converter` hands the
+user's object straight to `ir.tensor(...)`; every tensor constant is snapshotted when it is created
+(commit b4400e5).  A non-empty list makes this theorem fail: a regression of C14-N1. -/
+theorem constants_snapshotted : OV.Gen.C14Stash.converterFacts.constByRefSites = [] := by decide
+
+/-- **Script-time constants are fixed when the decorator runs** — full statement for the code as it is
+now: globals may be numbers or *mutable objects* (numpy arrays, TensorProtos, living in a heap of cells);
+whatever those objects contain later (`cells'`: any in-place mutation of any of them), the proto is the
+decoration-time one. -/
+theorem globals_frozen (g : RGlobals) (cells cells' : Cells) (body : SExp) :
+    (translateR true g cells body).toProto cells' = (translateR true g cells body).toProto cells :=
+  translateR_copy_frozen g cells cells' body
+
+/-- The code before commit b4400e5 wrapped the user's array by reference (finding C14-N1, fixed):
+`W = [1]; f = script(x + W); W[...] = 9` changed later protos.  Kept as the documented refutation; the real
+witness is replayed on every run. -/
+theorem globals_frozen_by_reference_prefix_refuted :
     ¬ ∀ (g : RGlobals) (cells cells' : Cells) (body : SExp),
         (translateR false g cells body).toProto cells' = (translateR false g cells body).toProto cells := by
   intro h
   have := h [("W", .ref 0)] (fun _ => 1) (fun _ => 9) (.add .x (.glob "W"))
   revert this; decide
 
-/-- What holds for the code as it is: protos are frozen when no global the body mentions is a mutable
-object (numbers, lists — which are converted — but no ndarray / TensorProto). -/
-theorem globals_frozen_partial (g : RGlobals) (cells cells' : Cells) (body : SExp)
+/-- … and what held for that code: frozen when no mentioned global is a mutable object. -/
+theorem globals_frozen_prefix_partial (g : RGlobals) (cells cells' : Cells) (body : SExp)
     (h : NoSharedMutablePayload g body) :
     (translateR false g cells body).toProto cells' = (translateR false g cells body).toProto cells :=
   translateR_noshared_frozen g cells cells' body h
@@ -183,12 +195,6 @@ example : NoSharedMutablePayload [("K", .imm 2), ("W", .ref 0)] (.mul .x (.glob 
   simp only [SExp.globalsOf, List.nil_append, List.mem_singleton] at hn
   subst hn
   simp [List.lookup]
-
-/-- With the payload snapshotted when the constant is created (proposed fix
-`proposed_fixes/ready/C14-N1.diff`) the full statement holds: for every later state of every object. -/
-theorem globals_frozen_with_copy (g : RGlobals) (cells cells' : Cells) (body : SExp) :
-    (translateR true g cells body).toProto cells' = (translateR true g cells body).toProto cells :=
-  translateR_copy_frozen g cells cells' body
 
 /-- `to_model_proto()ⁿ`: identical results and the function object unchanged, for every `n`. -/
 theorem to_model_proto_idempotent (n : Nat) (f : OnnxFn) :
